@@ -8,6 +8,7 @@ package vsym
 
 import (
 	"encoding/hex"
+	"encoding/pem"
 	"encoding/json"
 	"fmt"
 	"os"
@@ -237,3 +238,9 @@ func IteInt(c bool, a, b int) int {
 // the real encoding/pem is used, so harnesses that rely on the model describe their PEM inputs
 // through PEMOf.
 func PEMLen(n int) {}
+
+// PEMOf returns the PEM (CERTIFICATE) text of der.  Under the executor the text is opaque and
+// pem.Decode of it yields der.
+func PEMOf(der []byte) []byte {
+	return pem.EncodeToMemory(&pem.Block{Type: "CERTIFICATE", Bytes: der})
+}
